@@ -15,6 +15,7 @@ import (
 	"github.com/deepteams/webp/verifharness/core"
 	"github.com/deepteams/webp/verifharness/gen"
 	"github.com/deepteams/webp/verifharness/ref/riffwalk"
+	"github.com/deepteams/webp/verifharness/ref/xref"
 	"pgregory.net/rapid"
 )
 
@@ -28,7 +29,7 @@ type c05Case struct {
 }
 
 func genC05(t *rapid.T) *c05Case {
-	c := &c05Case{Source: rapid.SampledFrom([]string{"mutate", "mutate", "mutate", "mutate", "mutate", "random", "chunks"}).Draw(t, "source")}
+	c := &c05Case{Source: rapid.SampledFrom([]string{"mutate", "mutate", "mutate", "mutate", "mutate", "random", "chunks", "vp8lgen", "vp8gen"}).Draw(t, "source")}
 	pool := seeds()
 	switch c.Source {
 	case "mutate":
@@ -36,6 +37,23 @@ func genC05(t *rapid.T) *c05Case {
 		o := pool[rapid.IntRange(0, len(pool)-1).Draw(t, "otherIdx")]
 		c.Seed = s.Name
 		c.Data, c.Muts = gen.Mutate(t, s.Data, o.Data, 4)
+	case "vp8lgen", "vp8gen":
+		// a freshly generated stream using syntax the package's own encoder never writes (every
+		// predictor mode incl. 14/15, all code shapes, arbitrary intra modes and tokens), intact or
+		// mutated: reaches decoder states that mutations of encoder output do not
+		var bs []byte
+		if c.Source == "vp8lgen" {
+			bs, _ = gen.DrawVP8L(t, 40).Build()
+			c.Data = xref.Simple("VP8L", bs)
+		} else {
+			bs = gen.DrawVP8(t, 48).Build()
+			c.Data = xref.Simple("VP8 ", bs)
+		}
+		c.Seed = c.Source
+		if rapid.Bool().Draw(t, "mutateGenerated") {
+			o := pool[rapid.IntRange(0, len(pool)-1).Draw(t, "otherIdx")]
+			c.Data, c.Muts = gen.Mutate(t, c.Data, o.Data, 3)
+		}
 	case "random":
 		n := rapid.IntRange(0, 200).Draw(t, "n")
 		r := gen.NewRng(rapid.Uint64().Draw(t, "rseed"))
